@@ -104,25 +104,29 @@ func SuperTriangle(points []vector2.Float64) []vector2.Float64 {
 		)
 	}
 
-	height := max.Y() - min.Y()
-	min = vector2.New(min.X(), min.Y()-2)
+	// Size the triangle from the larger extent so that it encloses the points
+	// no matter how small or how flat their bounding box is.
+	size := math.Max(max.X()-min.X(), max.Y()-min.Y())
+	if size == 0 {
+		size = 1
+	}
 
 	xMiddle := (min.X() + max.X()) / 2.
-	width := max.X() - min.X()
+	bottom := min.Y() - size
 
 	top := vector2.New(
 		xMiddle,
-		min.Y()+(height*20),
+		bottom+(size*40),
 	)
 
 	left := vector2.New(
-		xMiddle-(width*20),
-		min.Y(),
+		xMiddle-(size*40),
+		bottom,
 	)
 
 	right := vector2.New(
-		xMiddle+(width*20),
-		min.Y(),
+		xMiddle+(size*40),
+		bottom,
 	)
 	return []vector2.Float64{left, top, right}
 }
